@@ -661,6 +661,14 @@ def _differential(res, broken, exe, tie, programs, oracle, legal, keep_prefix, w
             rc0, out0, _ = run_impl(lines)
             lines = lines[:max(keep_prefix + 1, len([o for o in out0 if o.strip()]) + 1)]
             hb = 24
+        else:
+            # shortest prefix on which the implementation's own output already contradicts the oracle (no further runs needed)
+            rc0, out0, _ = run_impl(lines)
+            if rc0 == 0:
+                for k in range(keep_prefix + 1, len(lines) + 1):
+                    if oracle(lines[:k], out0[:k]):
+                        lines = lines[:k]
+                        break
         vh = D.violating_history(lines, run_impl, oracle, keep_prefix=keep_prefix, budget=hb, legal=legal)
         if vh:
             small, why = vh
@@ -713,7 +721,7 @@ def t2_accounting(res, tier, broken, exe, deep):
     progs = [gen_hist(rng, nops, hist) for _ in range(nprog)]
     res.sample({"wb_stop_history": progs[0][:16]})
     n = _differential(res, broken, exe, TIE_II, progs, oracle_hist, legal_hist, 1,
-                      "num_scheds is not the number of live schedulers over the pool", 90)
+                      "num_scheds is not the number of live schedulers over the pool", 400)
     res.add_cov(stop_histories=nprog, stop_history_ops=n, stop_history_histogram=dict(hist))
 
 
